@@ -238,6 +238,54 @@ func localCellName(prefix string, t *ssa.Alloc) string {
 	return "L_" + sanitize(prefix) + sanitize(t.Parent().Name()) + "_" + t.Name()
 }
 
+// writtenOnce: a heap cell (a local captured by closures) whose only store is
+// its initialisation in the declaring function, and which closures only read:
+// nobody else can change it, so it is kept as a private cell of the activation.
+func writtenOnce(t *ssa.Alloc) bool {
+	refs := t.Referrers()
+	if refs == nil {
+		return false
+	}
+	stores := 0
+	var readOnlyUse func(v ssa.Value, depth int) bool
+	readOnlyUse = func(v ssa.Value, depth int) bool {
+		rs := v.Referrers()
+		if rs == nil || depth > 3 {
+			return false
+		}
+		for _, r := range *rs {
+			switch u := r.(type) {
+			case *ssa.UnOp:
+				if u.Op != token.MUL {
+					return false
+				}
+			case *ssa.DebugRef:
+			case *ssa.MakeClosure:
+				fn, ok := u.Fn.(*ssa.Function)
+				if !ok {
+					return false
+				}
+				for i, b := range u.Bindings {
+					if b == v {
+						if i >= len(fn.FreeVars) || !readOnlyUse(fn.FreeVars[i], depth+1) {
+							return false
+						}
+					}
+				}
+			case *ssa.Store:
+				if u.Addr != v || depth > 0 {
+					return false
+				}
+				stores++
+			default:
+				return false
+			}
+		}
+		return true
+	}
+	return readOnlyUse(t, 0) && stores <= 1
+}
+
 func isScalarCell(et types.Type) bool {
 	switch et.Underlying().(type) {
 	case *types.Struct, *types.Array:
@@ -248,7 +296,7 @@ func isScalarCell(et types.Type) bool {
 
 func (x *Exec) execAlloc(fr *frame, t *ssa.Alloc, st *State, reach string) *State {
 	et := t.Type().(*types.Pointer).Elem()
-	if !t.Heap && isScalarCell(et) {
+	if (!t.Heap || writtenOnce(t)) && isScalarCell(et) {
 		comp := localCellName(fr.prefix, t)
 		x.so.addComp(comp, x.so.sortOf(et))
 		st.set(comp, x.define(comp, x.so.comps[comp], x.so.zeroOf(et)))
